@@ -17,13 +17,17 @@ func verifC09_close() {
 		}
 		return f
 	}
-	state := vChoose("state", 5)
-	peer := vChoose("peer", 5)
-	stateName := []string{"idle", "message-half-read", "reader-blocked", "closeread-active", "writer-blocked"}[state]
-	peerName := []string{"silent", "stalls-inside-frame", "floods-data-never-closes", "never-reads", "eof"}[peer]
+	state := vChoose("state", 6)
+	peer := vChoose("peer", 6)
+	stateName := []string{"idle", "message-half-read", "reader-blocked", "closeread-active", "writer-blocked", "after-protocol-error"}[state]
+	peerName := []string{"silent", "stalls-inside-frame", "floods-data-never-closes", "never-reads", "eof", "control-frame-then-partial-header"}[peer]
 	vClassify("state", stateName)
 	vClassify("peer", peerName)
 	var wire []byte
+	if state == 5 {
+		// a frame with a reserved bit: the application's read fails and the library answers with its own Close frame
+		wire = append(wire, vEncodeFrame(mk(vFrame{fin: true, rsv2: true, opcode: 2, payload: vBytes("m", 1)}))...)
+	}
 	if state == 1 {
 		// a two-fragment message whose first fragment is complete; the application reads only part of it
 		wire = append(wire, vEncodeFrame(mk(vFrame{fin: false, opcode: 2, payload: vBytes("m", 3)}))...)
@@ -33,6 +37,11 @@ func verifC09_close() {
 		f := vEncodeFrame(mk(vFrame{fin: state != 1, opcode: uint8(vIteInt(state == 1, 0, 2)), payload: vBytes("m", 4)}))
 		k := 1 + vChoose("stallAt", len(f)-1)
 		wire = append(wire, f[:k]...)
+	case 5:
+		// one segment: a complete Pong followed by the first byte(s) of the next frame header, then nothing
+		wire = append(wire, vEncodeFrame(mk(vFrame{fin: true, opcode: 10, payload: vBytes("m", 2)}))...)
+		next := vEncodeFrame(mk(vFrame{fin: true, opcode: 9, payload: vBytes("m", 1)}))
+		wire = append(wire, next[:1+vChoose("hdrPrefix", 1)]...)
 	case 2:
 		op := uint8(2)
 		if state == 1 {
@@ -53,6 +62,9 @@ func verifC09_close() {
 	blocked := make(chan error, 2)
 	nBlocked := 0
 	switch state {
+	case 5:
+		_, _, err := c.Read(vBG)
+		vAssert(err != nil, "C09.close.setup-violation")
 	case 1:
 		_, r, err := c.Reader(vBG)
 		vAssert(err == nil, "C09.close.setup-reader")
